@@ -4,7 +4,7 @@
    from the freshly generated derived.gen.go. *)
 From Coq Require Import List.
 Import ListNotations.
-From Verif Require Import Chan.Sem Chan.Expected Chan.FmapProofs Chan.DupProofs.
+From Verif Require Import Chan.Sem Chan.Expected Chan.Lemmas Chan.FmapProofs Chan.DupProofs Chan.JoinCC Chan.JoinCCLive.
 
 (* ---------------- deriveFmap(f, <-chan) ---------------- *)
 Theorem C19_fmap_safety : forall (f : item -> item) xs cin cout s,
@@ -66,3 +66,47 @@ Theorem C19_dup_terminates : forall (f : item -> item) xs cin c1 c2 l s,
   run f (fn_progs exp_dup) (dup_init xs cin c1 c2) l = Some s -> length l <= length xs * 8 + 7.
 Proof. exact dup_terminates. Qed.
 Print Assumptions C19_dup_terminates.
+
+(* ---------------- deriveJoin(in <-chan (<-chan T)): any number of inner channels ---------------- *)
+(* Merge ls l: l is an interleaving of the lists ls (Chan/Lemmas.v); what that means: *)
+Theorem C19_merge_length : forall ls l, Merge ls l -> length l = sumw (@length item) ls.
+Proof. exact Merge_length. Qed.
+Print Assumptions C19_merge_length.
+
+Theorem C19_merge_subseq : forall ls l, Merge ls l -> forall j d, nth_error ls j = Some d -> Subseq d l.
+Proof. exact Merge_subseq. Qed.
+Print Assumptions C19_merge_subseq.
+
+Theorem C19_joincc_safety : forall (f : item -> item) inputs cin cout s,
+  reach f (fn_progs exp_join_cc) (joincc_init inputs cin cout) s ->
+  panicked s = false
+  /\ (exists dls, length dls = length inputs /\ Merge dls (cons_log s 2 ++ ch_buf s 1) /\
+        forall j cp its dl, nth_error inputs j = Some (cp, its) -> nth_error dls j = Some dl ->
+                            exists rest, its = dl ++ rest)
+  /\ (ch_closed s 1 = true ->
+        prod_done s 0 = true /\ ch_closed s 0 = true /\ ch_buf s 0 = [] /\ wg s = 0
+        /\ length (thr s) = 3 + length inputs + length inputs
+        /\ (forall j, j < length inputs ->
+               prod_done s (3 + j) = true /\ ch_closed s (2 + j) = true /\ ch_buf s (2 + j) = []
+               /\ option_map (halted (fn_progs exp_join_cc)) (nth_error (thr s) (3 + length inputs + j)) = Some true)
+        /\ Merge (map snd inputs) (cons_log s 2 ++ ch_buf s 1)).
+Proof. exact joincc_safety. Qed.
+Print Assumptions C19_joincc_safety.
+
+Theorem C19_joincc_deadlock_free_no_leak : forall (f : item -> item) inputs cin cout s,
+  reach f (fn_progs exp_join_cc) (joincc_init inputs cin cout) s -> stuck f (fn_progs exp_join_cc) s ->
+  all_halted (fn_progs exp_join_cc) s = true /\ Merge (map snd inputs) (cons_log s 2) /\ ch_closed s 1 = true.
+Proof. exact joincc_stuck_is_done. Qed.
+Print Assumptions C19_joincc_deadlock_free_no_leak.
+
+Theorem C19_joincc_measure_decreases : forall (f : item -> item) inputs cin cout s act s',
+  reach f (fn_progs exp_join_cc) (joincc_init inputs cin cout) s ->
+  step f (fn_progs exp_join_cc) s act = Some s' -> JoinCC.mu s' < JoinCC.mu s.
+Proof. exact joincc_measure_decreases. Qed.
+Print Assumptions C19_joincc_measure_decreases.
+
+Theorem C19_joincc_terminates : forall (f : item -> item) inputs cin cout l s,
+  run f (fn_progs exp_join_cc) (joincc_init inputs cin cout) l = Some s ->
+  length l <= JoinCC.mu (joincc_init inputs cin cout).
+Proof. exact joincc_terminates. Qed.
+Print Assumptions C19_joincc_terminates.
